@@ -123,6 +123,17 @@ class P:
         for n in range(0, 4):
             for t in itertools.product(k3, repeat=n): seqs.append(" ".join(t))
         sub = ["1", "a", "f(", "(", ")", "[", "]", ",", ";", "?", ":", "not", "+", "++"]
+        # a missing (or wrong) separator between every ordered pair of element shapes, in every container kind
+        ELEMS = ["1", "a", "'s'", "( 2 )", "[ 2 ]", "[ ]", "{ }", "{ 1 : 2 }", "f( 2 )", "f( )", "- 1", "a ++", "true"]
+        for e1 in ELEMS:
+            for e2 in ELEMS:
+                for sepr in ["", ";", ":", "?"]:
+                    seqs.append("[ %s %s %s ]" % (e1, sepr, e2))
+                    seqs.append("f( %s %s %s )" % (e1, sepr, e2))
+                    seqs.append("{ %s : 1 %s %s : 2 }" % (e1, sepr, e2))
+                for sepr in ["", ",", ";", "="]:
+                    seqs.append("{ %s %s %s }" % (e1, sepr, e2))
+                    seqs.append("true ? %s %s %s" % (e1, sepr, e2))
         # separators replaced by their quoted spelling inside every small construct
         for q in QUOTED:
             for tmpl in ["[ 1 %s 2 ]", "{ 1 %s 2 }", "{ 1 : 2 %s 3 : 4 }", "f( 1 %s 2 )", "true ? 1 %s 2", "true %s 1 : 2", "( 1 %s", "[ 1 , 2 %s",
